@@ -2,12 +2,19 @@
   C16 — multisig descriptors: checksum, error detection, address derivation.
   Property theorems only (helper lemmas: Buidl.Proofs.Descriptor, Buidl.Proofs.DescriptorPoly).
 
+  `parse (str d) = d` and the checksum link are theorems about the model of `parse` itself, in which the two
+  regular expressions are the hand-written matchers `matchDescriptor` / `matchKeyRecord` (compared with Python's
+  `re.match` on the source patterns on every run); they are stated for the text layout the constructor emits
+  (`descriptor_text_layout`), not for general regular-expression semantics.
+
   Model: Buidl.Model.Descriptor (constants from Buidl.Gen.Descriptor, re-extracted from /repo on every run);
   specification of the checksum: Buidl.Spec.DescriptorChecksum (Bitcoin Core's `DescriptorChecksum`, with its
   own literal constants — a changed generator constant, charset, shift or mask in descriptor.py makes
   `checksum_eq_core` fail to compile).  `hash256`, `sha256`, `hmac`, `h160` are arbitrary functions.
 -/
 import Buidl.Proofs.Descriptor
+import Buidl.Proofs.DescriptorParse
+import Buidl.Proofs.HD
 namespace Buidl.Props.C16
 open Buidl Buidl.PyStr Buidl.HD Buidl.Descriptor
 
@@ -75,6 +82,61 @@ theorem descriptor_text_layout (hash256 : Bytes → Bytes) (m : Int) (krs : List
     obtain ⟨ht, hm, hm'⟩ := constructCore_text hash256 m krs srt d0 hd0
     exact ⟨by rw [Desc.repr, ht], hm, hm'⟩
 
+/-! ## parse (str d) = d, and the checksum inside `parse` -/
+
+section
+variable (hash256 : Bytes → Bytes) (hmac : Bytes → Bytes → Bytes) (h160 : Bytes → Bytes)
+
+/-- `P2WSHSortedMulti.parse(str(d)) = d` for every descriptor the constructor returns — any m, any key records,
+    sorted or not, xpubs in any of the ten prefixes (they are stored in the default one) — provided `d` satisfies
+    `ReprWF`: the three things `parse` insists on and the constructor does not check, namely m ≤ n; fingerprints
+    in lower-case hex and paths written `m/…` without `] , ( ) * \` / newline (the constructor also takes `ABCDEF12`
+    or `M/…`, whose text `parse` then refuses or reads back as another path); and the account child of every xpub
+    being derivable and serialisable (`full_key_record_child_check`: exactly what parse_full_key_record adds).
+    The EC and Base58Check round trips are C03's / C09's theorems; `hash256` is any function returning ≥ 4 bytes. -/
+theorem parse_str_roundtrip (hh : ∀ b, 4 ≤ (hash256 b).length) (m : Int) (krs : List KeyRecord) (cs : Str)
+    (srt : Bool) (d : Desc) (hc : construct hash256 m krs cs srt = some d) (wf : ReprWF hash256 hmac h160 d) :
+    parse hash256 hmac h160 d.repr = some d :=
+  parse_repr_rel hash256 hmac h160 (b58RoundTrip hash256 hh) hh
+    (fun _ _ hb s hs => sec_roundtrip (EC.parsePoint_valid hb) s hs) m krs cs srt d hc wf
+
+/-- the condition `ReprWF.child` is what parse_full_key_record itself establishes for every record it returns -/
+theorem full_key_record_child_check (s : Str) (kr : KeyRecord)
+    (h : parseFullKeyRecord hash256 hmac h160 s = some kr) :
+    ∃ pk c x, HDPub.parse hash256 kr.xpubParent = some pk ∧ pk.childI hmac h160 kr.accountIndex = some c ∧
+      c.xpub hash256 none = some x :=
+  parseFullKeyRecord_child hash256 hmac h160 s kr h
+
+/-- the regular expression of `parse` on generated text: threshold digits, key-record text, checksum group -/
+theorem descriptor_regex_on_generated_text (m : Nat) (recs cs : Str)
+    (hrec : ∀ c ∈ recs, c ≠ '(' ∧ c ≠ ')' ∧ c ≠ '\n') (hcs : ∀ c ∈ cs, isBech32Char c = true) (hlen : cs.length = 8) :
+    matchDescriptor (wshLiteral ++ (natStr m ++ ',' :: recs ++ ')' :: ')' :: '#' :: cs)) = some (natStr m, recs, some cs) :=
+  matchDescriptor_generated m recs cs hrec hcs hlen
+
+/-- checksum differs ⇒ parse refuses: whatever text `parse` accepts, the descriptor it returns carries the
+    recomputed checksum of its own (regenerated) text -/
+theorem parse_checksum_checked (r : Str) (d : Desc) (h : parse hash256 hmac h160 r = some d) :
+    calcCoreChecksum d.text = some d.checksum :=
+  parse_checksum hash256 hmac h160 r d h
+
+/-- single-character substitution in the body, as a theorem about `parse`: take any body with its checksum `cs`
+    and replace one character; no input whatsoever makes `parse` return a descriptor whose text is the altered body
+    with `cs`.  (With `parse_str_roundtrip`: the genuine text parses to itself, a substituted one never does.
+    What remains outside is a parse that *normalises* the altered body into a different text — xpub version bytes,
+    text before `wsh(` — which then must itself carry `cs`; the exhaustive substitution run on the real parse covers it.) -/
+theorem parse_detects_body_substitution (pre post : Str) (ch ch' : Char) (hne : ch ≠ ch') (cs : Str)
+    (horig : calcCoreChecksum (pre ++ ch :: post) = some cs) (r : Str) (d : Desc)
+    (hp : parse hash256 hmac h160 r = some d) : d.repr ≠ (pre ++ ch' :: post) ++ '#' :: cs :=
+  fun hrepr => parse_never_substituted_body hash256 hmac h160 pre post ch ch' hne cs horig r d hp hrepr
+
+/-- … and any alteration of the eight checksum characters -/
+theorem parse_detects_checksum_substitution (body cs cs' : Str) (hne : cs' ≠ cs) (hlen : cs'.length = 8)
+    (horig : calcCoreChecksum body = some cs) (r : Str) (d : Desc)
+    (hp : parse hash256 hmac h160 r = some d) : d.repr ≠ body ++ '#' :: cs' :=
+  fun hrepr => parse_never_substituted_checksum hash256 hmac h160 body cs cs' hne hlen horig r d hp hrepr
+
+end
+
 /-! ## addresses -/
 
 section
@@ -107,10 +169,10 @@ theorem p2wsh_script_bytes (m : Nat) (keys : List Bytes) :
 
 /-- receive and change branches use different child indices of every cosigner: change = receive + 1 -/
 theorem change_index_eq_succ (kr : KeyRecord) : accountFor kr true = accountFor kr false + 1 := by
-  simp [accountFor]
+  simp only [accountFor, Gen.changeOffset, if_true, Bool.false_eq_true, if_false]; omega
 
 theorem change_index_ne_receive (kr : KeyRecord) : accountFor kr true ≠ accountFor kr false := by
-  simp [accountFor]; omega
+  simp only [accountFor, Gen.changeOffset, if_true, Bool.false_eq_true, if_false]; omega
 
 end
 
@@ -124,5 +186,10 @@ example : (calcCoreChecksum "raw(deadbeef)".toList).isSome = true := by decide +
 example : calcCoreChecksum "raw(deadbeef)".toList ≠ calcCoreChecksum "raw(deadbeff)".toList := by decide +kernel
 
 example : regexesAsModelled = true := by decide
+
+/-- the textual conditions of `ReprWF` hold for an ordinary key origin -/
+example : (∀ c ∈ "/48h/1h/0h/2h".toList,
+    c ≠ ']' ∧ c ≠ ',' ∧ c ≠ '(' ∧ c ≠ ')' ∧ c ≠ '\n' ∧ c ≠ '\\' ∧ c ≠ '*') ∧
+    (∀ c ∈ "c7d0648a".toList, isHexLower c = true) ∧ "c7d0648a".toList.length = 8 := by decide
 
 end Buidl.Props.C16
